@@ -16,6 +16,9 @@ TrMulti == { Tr(1, 5, 4, 2700, 11), Tr(2, 7, 5, 1801, -12), Tr(3, 8, -1, 1800, 1
 TrExtreme == { Tr(1, MAXI - 1, 0, 901, 1), Tr(2, MAXI, MAXI - 1, 1800, MINI), Tr(3, -5, -7, 901, MAXI),
                Tr(4, MINI, MINI, 0, 0), Tr(5, MINI + 1, -1, 1, 5) }
 
+\* the part-count limit: 32 parts (full last part) and 31 parts
+TrMax == { Tr(1, 5, 3, 28800, 17), Tr(2, 7, -1, 27900, 18) }
+
 \* sender-side overflow: tick - base does not fit 32 bits
 TrOverflow == { Tr(1, MAXI, -1, 901, 1), Tr(2, MINI, 1, 3, 2), Tr(3, 5, 3, 901, 4) }
 
